@@ -7,6 +7,11 @@ Export ListNotations.
 Definition str := list N.
 Local Open Scope N_scope.
 
+(* linear-time reversal (List.rev is quadratic); [frev_rev] below says it is rev *)
+Definition frev {A} (l : list A) : list A := rev_append l [].
+Lemma frev_rev {A} (l : list A) : frev l = rev l.
+Proof. unfold frev. symmetry. apply rev_alt. Qed.
+
 Fixpoint str_eqb (a b : str) : bool :=
   match a, b with
   | [], [] => true
@@ -70,7 +75,7 @@ Fixpoint drop_while (f : N -> bool) (s : str) : str :=
   | [] => []
   | c :: s' => if f c then drop_while f s' else s
   end.
-Definition drop_while_end (f : N -> bool) (s : str) : str := rev (drop_while f (rev s)).
+Definition drop_while_end (f : N -> bool) (s : str) : str := frev (drop_while f (frev s)).
 
 Fixpoint repeat_cp (c : N) (n : nat) : str :=
   match n with O => [] | S k => c :: repeat_cp c k end.
